@@ -725,6 +725,10 @@ package parse
 //@   requires tstruct(t)
 //@   assume a4: streamOK(t.lex) && t.lex.rcv == 0
 //@   ensures ok: err == nil ==> t.root != nil && len(t.blocks) >= 1 && t.macros != nil
+// C19: on every return the tokeniser goroutine started by this call is finished or can finish without the parser:
+// either the terminal token has been received (tokenize then closes the channel and returns, tokenize#post:closed, G3)
+// or the channel has been ranged over until it reported closed-and-empty (the drain loop on the error path).
+//@   ensures lexdone: t.lex.rcv > t.lex.term || drained(t.lex.tokens)
 //@   loop 1 invariant tinv(t)
 //@   loop 1 decreases left(t)
 //@   loop 2 invariant true
